@@ -824,6 +824,58 @@ def plain_dict_iteration(tree):
     return count[0]
 
 
+def while_conditions(tree):
+    """while True: if C: break ; BODY   ->   while not C: BODY        (the loop's first statement is that bare exit test, no else clause)"""
+    count = [0]
+
+    class T(ast.NodeTransformer):
+        def visit_While(self, n):
+            self.generic_visit(n)
+            if isinstance(n.test, ast.Constant) and n.test.value is True and not n.orelse and len(n.body) >= 2 and isinstance(n.body[0], ast.If) \
+                    and not n.body[0].orelse and len(n.body[0].body) == 1 and isinstance(n.body[0].body[0], ast.Break):
+                c = n.body[0].test
+                n.test = c.operand if isinstance(c, ast.UnaryOp) and isinstance(c.op, ast.Not) else ast.UnaryOp(op=ast.Not(), operand=c)
+                n.body = n.body[1:]
+                count[0] += 1
+            return n
+    for fn in [x for x in ast.walk(tree) if isinstance(x, (ast.FunctionDef, ast.AsyncFunctionDef))]:
+        T().visit(fn)
+    ast.fix_missing_locations(tree)
+    return count[0]
+
+
+def extend_for_append_loops(tree):
+    """for x in IT: acc.append(x)   ->   acc.extend(IT)        (the loop body is that one statement appending the loop variable itself)"""
+    count = [0]
+
+    class T(ast.NodeTransformer):
+        def _block(self, stmts):
+            out = []
+            for st in stmts:
+                if isinstance(st, ast.For) and not st.orelse and len(st.body) == 1 and isinstance(st.target, ast.Name) and isinstance(st.body[0], ast.Expr) \
+                        and isinstance(st.body[0].value, ast.Call) and isinstance(st.body[0].value.func, ast.Attribute) and st.body[0].value.func.attr == "append" \
+                        and isinstance(st.body[0].value.func.value, ast.Name) and len(st.body[0].value.args) == 1 and not st.body[0].value.keywords \
+                        and isinstance(st.body[0].value.args[0], ast.Name) and st.body[0].value.args[0].id == st.target.id \
+                        and not any(isinstance(y, ast.Name) and y.id == st.body[0].value.func.value.id for y in ast.walk(st.iter)):
+                    count[0] += 1
+                    out.append(ast.copy_location(ast.Expr(value=ast.Call(func=ast.Attribute(value=st.body[0].value.func.value, attr="extend", ctx=ast.Load()), args=[st.iter], keywords=[])), st))
+                else:
+                    out.append(st)
+            return out
+
+        def generic_visit(self, node):
+            node = super().generic_visit(node)
+            for fld in ("body", "orelse", "finalbody"):
+                v = getattr(node, fld, None)
+                if isinstance(v, list) and v and isinstance(v[0], ast.stmt) and not isinstance(node, (ast.ClassDef, ast.Module)):
+                    setattr(node, fld, self._block(v))
+            return node
+    for fn in [x for x in ast.walk(tree) if isinstance(x, (ast.FunctionDef, ast.AsyncFunctionDef))]:
+        T().visit(fn)
+    ast.fix_missing_locations(tree)
+    return count[0]
+
+
 def transformed_copy(mode, suffix="_q"):
     """a scratch copy of the analysed tree (VERIF_REPO_ROOT or /repo) with one transformation applied everywhere; (path, number of rewrites)"""
     src_root = os.environ.get("VERIF_REPO_ROOT", "/repo")
@@ -874,7 +926,7 @@ def transformed_copy(mode, suffix="_q"):
                 total += k
             continue
         k = {"hoist-returns": hoist_returns, "name-arguments": name_arguments, "unelse": unelse, "else-after-exit": else_after_exit,
-             "flip-comparisons": flip_comparisons, "inline-temps": inline_temps, "swap-arms": swap_arms, "generators-for-lists": generators_for_lists, "swap-products": swap_products, "tuple-assignments": tuple_assignments, "plain-dict-iteration": plain_dict_iteration, "conditional-expressions": conditional_expressions, "numpy-function-forms": numpy_function_forms, "rename-comprehension-variables": rename_comprehension_variables, "loops-for-comprehensions": loops_for_comprehensions,
+             "flip-comparisons": flip_comparisons, "inline-temps": inline_temps, "swap-arms": swap_arms, "generators-for-lists": generators_for_lists, "swap-products": swap_products, "while-conditions": while_conditions, "extend-for-append-loops": extend_for_append_loops, "tuple-assignments": tuple_assignments, "plain-dict-iteration": plain_dict_iteration, "conditional-expressions": conditional_expressions, "numpy-function-forms": numpy_function_forms, "rename-comprehension-variables": rename_comprehension_variables, "loops-for-comprehensions": loops_for_comprehensions,
              "name-tests": name_tests}.get(mode, lambda t: rename_locals(t, suffix))(tree)
         if k:
             open(path, "w").write(ast.unparse(tree) + "\n")
@@ -891,7 +943,7 @@ def main():
     if "--only" in sys.argv:
         only = sys.argv[sys.argv.index("--only") + 1].split(",")
     mode = "rename-locals"
-    for m_ in ("hoist-returns", "name-arguments", "unelse", "else-after-exit", "flip-comparisons", "keyword-arguments", "inline-temps", "swap-arms", "generators-for-lists", "name-tests", "swap-products", "loops-for-comprehensions", "rename-comprehension-variables", "alias-attributes", "numpy-function-forms", "conditional-expressions", "tuple-assignments", "plain-dict-iteration", "combined-2", "combined"):
+    for m_ in ("hoist-returns", "name-arguments", "unelse", "else-after-exit", "flip-comparisons", "keyword-arguments", "inline-temps", "swap-arms", "generators-for-lists", "name-tests", "swap-products", "loops-for-comprehensions", "rename-comprehension-variables", "alias-attributes", "numpy-function-forms", "conditional-expressions", "tuple-assignments", "plain-dict-iteration", "while-conditions", "extend-for-append-loops", "combined-2", "combined"):
         if "--" + m_ in sys.argv:
             mode = m_
     out = tempfile.mkdtemp(prefix="batchie-verif-alpha-out-", dir="/var/tmp")
